@@ -1905,7 +1905,7 @@ fn main() {
         }
         // ONE endpoint: every script over {server starts, server goes away} up to length 3 (thorough 5)
         for up0 in [false, true] {
-            for len in 0..=(if a.thorough { 5 } else { 3 }) {
+            for len in 0..=(if a.thorough { 4 } else { 3 }) {
                 for (idx, s) in seqs(&[U(0), D(0)], len).into_iter().enumerate() {
                     push_balance_case(&mut out, "balance.list1", 1, false, &[up0], &calls_after(&s, |j| 1 + (idx + j) % 2));
                 }
@@ -1915,8 +1915,8 @@ fn main() {
         let ups: &[[bool; 2]] = if a.thorough { &[[false, false], [true, false], [false, true], [true, true]] } else { &[[false, false], [true, false]] };
         for up0 in ups {
             push_balance_case(&mut out, "balance.list2", 2, false, up0, &[C, C, U(0), U(1), C, C, C, D(0), C, C, C, D(1), C, C, U(1), C, C, C]);
-            for len in 0..=(if a.thorough { 3 } else { 2 }) {
-                if !a.thorough && len == 1 {
+            for len in 0..=2 {
+                if len == 1 && !a.thorough {
                     continue;
                 }
                 for (idx, s) in seqs(&[U(0), D(0), U(1), D(1)], len).into_iter().enumerate() {
@@ -1937,7 +1937,7 @@ fn main() {
         for (up0, s) in &dynamic {
             push_balance_case(&mut out, "balance.channel", 2, true, up0, s);
         }
-        for _ in 0..(if a.thorough { 60 } else { 8 }) {
+        for _ in 0..(if a.thorough { 20 } else { 8 }) {
             let up0 = [r.chance(1, 2), r.chance(1, 2)];
             let mut inset = [false, false];
             let mut s = vec![];
@@ -2074,7 +2074,7 @@ fn main() {
 
     out.finish(
         IMPORTS,
-        "corpus.F-C14c.connect_timeout: Endpoint::connect_timeout set (virtual time) with a connector that never answers, connect_with_connector_lazy (two calls) and connect_with_connector (eager): the attempt can only end by the timeout, which must be an UNAVAILABLE-class connect error (fix fbf82474). script.exhaustive: ALL scripts over {connect fails, connect succeeds, connection dropped} up to length 6 (thorough 8) x lazy/eager, a unary call at the quiescent point after every event (and optionally before the first), initial reachability and connector latency (0..2 Pending polls) varied; concurrent.k: ALL such scripts up to length 4 (thorough 6) with 2..4 calls issued TOGETHER (queued in the tower Buffer) after every event; history.random: random histories with calls and batches of 0..4 at arbitrary positions; tcp.loopback: real Endpoint::connect()/connect_lazy() (hyper-util HttpConnector, real clock) against 127.0.0.1 peers {nothing listening, accepts and closes, accepts and answers HTTP/1.1, real tonic server shut down and restarted on the same port}, codes compared with the model (nothing listening = refusal, strictly UNAVAILABLE; accept-and-close/garbage = established connection dying with the request in flight, CANCELLED or UNAVAILABLE accepted; healthy = response, also after restart); balance.list1 / balance.list2 / balance.channel: real Channel::balance_list (1 and 2 endpoints) and Channel::balance_channel (endpoints inserted/removed through the Sender) over 127.0.0.1 (tower p2c Balance polls Reconnect::poll_ready again right before every dispatch; peers: nothing listening on a reserved port = refused after a Pending connect, healthy tonic server, started/stopped on the same port; real clock, 12 s bound per call): list1 = ALL scripts over {server starts, server goes away} up to length 3 (thorough 5) x initially up/down, 1..2 calls after every event, codes compared with the model's balanced driver (exact); list2 = all scripts over the two endpoints' events of length 0 and 2 (thorough 0..3) + a long one, channel = hand-written and random insert/remove/up/down scripts (model: calls while no endpoint of the set is reachable); oracle: every call completes within the bound with a response or UNAVAILABLE, no response while no endpoint is reachable, a failure while every endpoint is reachable only for a failure still outstanding from an earlier call (never with one endpoint: the first call after the endpoint is back succeeds), each reported once; observe.connector_not_ready: connector whose poll_ready errs after g cycles (outside the property: tower's contract makes the Buffer worker fail for good; model exact, oracle only definite/no panic/no hang); script.error_kinds: every shape of the error beneath the ConnectError (the reason selects it: 20 std::io::ErrorKinds, a custom error type, a boxed String, wrapped 0..2 levels deep) for refusals of the connector and for failures of the HTTP/2 handshake on a scripted io, lazy and eager - strictly UNAVAILABLE; all other kinds draw their reasons from the same space; script.handshake / history.random_handshake: the alphabet widened by {transport connects but the peer closes at once (handshake fails; strictly UNAVAILABLE, fixed finding F-C14a), transport connects but the peer is not HTTP/2 (established connection dies under the request, CANCELLED or UNAVAILABLE accepted as for racy drops)}; corpus.racy: calls issued before the client noticed the drop (outside the property's quantifier, behaviour recorded and modelled). The scripted connector enforces the tower Service protocol (its poll_ready answers Pending 0..2 times per cycle; a call without a Ready poll_ready is recorded / panics / runs under a real tower::limit::ConcurrencyLimit, rotating per case; corpus.protocol = drop-and-reconnect sequences in every mode). Real Endpoint::connect_with_connector[_lazy] + Buffer worker + Reconnect + hyper h2 client against a real tonic Server over tokio duplex pipes, paused clock. Non-trivial = at least one call and two steps. Distinct = distinct (kind, model expression).",
+        "corpus.F-C14c.connect_timeout: Endpoint::connect_timeout set (virtual time) with a connector that never answers, connect_with_connector_lazy (two calls) and connect_with_connector (eager): the attempt can only end by the timeout, which must be an UNAVAILABLE-class connect error (fix fbf82474). script.exhaustive: ALL scripts over {connect fails, connect succeeds, connection dropped} up to length 6 (thorough 8) x lazy/eager, a unary call at the quiescent point after every event (and optionally before the first), initial reachability and connector latency (0..2 Pending polls) varied; concurrent.k: ALL such scripts up to length 4 (thorough 6) with 2..4 calls issued TOGETHER (queued in the tower Buffer) after every event; history.random: random histories with calls and batches of 0..4 at arbitrary positions; tcp.loopback: real Endpoint::connect()/connect_lazy() (hyper-util HttpConnector, real clock) against 127.0.0.1 peers {nothing listening, accepts and closes, accepts and answers HTTP/1.1, real tonic server shut down and restarted on the same port}, codes compared with the model (nothing listening = refusal, strictly UNAVAILABLE; accept-and-close/garbage = established connection dying with the request in flight, CANCELLED or UNAVAILABLE accepted; healthy = response, also after restart); balance.list1 / balance.list2 / balance.channel: real Channel::balance_list (1 and 2 endpoints) and Channel::balance_channel (endpoints inserted/removed through the Sender) over 127.0.0.1 (tower p2c Balance polls Reconnect::poll_ready again right before every dispatch; peers: nothing listening on a reserved port = refused after a Pending connect, healthy tonic server, started/stopped on the same port; real clock, 12 s bound per call): list1 = ALL scripts over {server starts, server goes away} up to length 3 (thorough 4) x initially up/down, 1..2 calls after every event, codes compared with the model's balanced driver (exact); list2 = all scripts over the two endpoints' events of length 0 and 2 (thorough 0..2, all four initial states) + a long one, channel = hand-written and random insert/remove/up/down scripts (model: calls while no endpoint of the set is reachable); oracle: every call completes within the bound with a response or UNAVAILABLE, no response while no endpoint is reachable, a failure while every endpoint is reachable only for a failure still outstanding from an earlier call (never with one endpoint: the first call after the endpoint is back succeeds), each reported once; observe.connector_not_ready: connector whose poll_ready errs after g cycles (outside the property: tower's contract makes the Buffer worker fail for good; model exact, oracle only definite/no panic/no hang); script.error_kinds: every shape of the error beneath the ConnectError (the reason selects it: 20 std::io::ErrorKinds, a custom error type, a boxed String, wrapped 0..2 levels deep) for refusals of the connector and for failures of the HTTP/2 handshake on a scripted io, lazy and eager - strictly UNAVAILABLE; all other kinds draw their reasons from the same space; script.handshake / history.random_handshake: the alphabet widened by {transport connects but the peer closes at once (handshake fails; strictly UNAVAILABLE, fixed finding F-C14a), transport connects but the peer is not HTTP/2 (established connection dies under the request, CANCELLED or UNAVAILABLE accepted as for racy drops)}; corpus.racy: calls issued before the client noticed the drop (outside the property's quantifier, behaviour recorded and modelled). The scripted connector enforces the tower Service protocol (its poll_ready answers Pending 0..2 times per cycle; a call without a Ready poll_ready is recorded / panics / runs under a real tower::limit::ConcurrencyLimit, rotating per case; corpus.protocol = drop-and-reconnect sequences in every mode). Real Endpoint::connect_with_connector[_lazy] + Buffer worker + Reconnect + hyper h2 client against a real tonic Server over tokio duplex pipes, paused clock. Non-trivial = at least one call and two steps. Distinct = distinct (kind, model expression).",
         json!({}),
     );
 }
